@@ -102,7 +102,7 @@ def get_offset_fit_error(x, y):
     0.0
     """
     mean = np.mean(y - x)
-    return np.sqrt(sum(np.square(x + mean - y)))
+    return np.linalg.norm(x + mean - y)
 
 def get_equals_fit_error(x, y):
     """
@@ -110,7 +110,7 @@ def get_equals_fit_error(x, y):
     Arguments:
         x, y: compatible numpy arrays
     """
-    return np.sqrt(sum(np.square(x - y)))
+    return np.linalg.norm(x - y)
 
 class LinearComparer(CorrelatedComparer):
     """
